@@ -399,6 +399,33 @@ func runMqCase(c mqCase) (labelTerms []string, obsTerms []string, sawError bool,
 	return
 }
 
+// a backlog of at least two pending messages behind a held send, block sizes mixed around the 512 KiB threshold
+func genMqBacklog(r *rng.R) mqCase {
+	var c mqCase
+	nreq := r.Range(1, 3)
+	for i := 1; i <= nreq; i++ {
+		c.Univ = append(c.Univ, uint64(i))
+	}
+	link := uint64(1)
+	c.Labels = append(c.Labels, mqLabel{K: "build", R: 1, Blocks: []mqBlock{{L: link, Size: uint64(r.Range(1, 2000)), Has: true}}})
+	if r.P(1, 2) {
+		c.Labels = append(c.Labels, mqLabel{K: "net", OK: true})
+	}
+	n := r.Range(3, 7)
+	for i := 0; i < n; i++ {
+		link++
+		size := uint64(r.Range(250000, 330000))
+		if i >= 2 && r.P(1, 2) {
+			size = uint64(r.Range(50000, 150000))
+		}
+		c.Labels = append(c.Labels, mqLabel{K: "build", R: uint64(r.Range(1, nreq)), Blocks: []mqBlock{{L: link, Size: size, Has: true}}})
+	}
+	for i := 0; i < 2*n+8; i++ {
+		c.Labels = append(c.Labels, mqLabel{K: "net", OK: i >= 2*n || r.P(9, 10)})
+	}
+	return c
+}
+
 func genMqCase(r *rng.R) mqCase {
 	nreq := r.Range(1, 3)
 	var c mqCase
@@ -474,7 +501,7 @@ func genMqCase(r *rng.R) mqCase {
 }
 
 const mqHeader = `From Coq Require Import List NArith Bool.
-From GS Require Import Base MsgQueue.
+From GS Require Import Base MsgQueue MsgQueueOrder.
 Import ListNotations.
 Open Scope N_scope.
 `
@@ -484,6 +511,7 @@ func driveMsgQueue(c *ctx) error {
 		{Name: "MISMATCH", Fn: "qcase_agrees"},
 		{Name: "MON15", Fn: "qcase_mon15"},
 		{Name: "MON16", Fn: "qcase_mon16"},
+		{Name: "MON17F", Fn: "qcase_mon17"},
 	})
 	w.ShardSize = 150
 	w.Stats.Rule = "scripts of response-assembler transactions (blocks of 1B-400KiB with distinct links, extension payloads, statuses) over 1-3 requests, network outcomes " +
@@ -519,6 +547,9 @@ func driveMsgQueue(c *ctx) error {
 		n := c.count(400, 4000)
 		for i := 0; i < n; i++ {
 			cases = append(cases, res{mc: genMqCase(c.r.Fork()), tag: "random"})
+		}
+		for i := 0; i < n/10; i++ {
+			cases = append(cases, res{mc: genMqBacklog(c.r.Fork()), tag: "backlog"})
 		}
 	}
 	// run in parallel: each case has its own queue, allocator and network
